@@ -23,6 +23,7 @@ RAC = {
     'rule_spans': dict(crate=CORE, attach=S + 'linting/lint_group.rs', file='lint_group.rs', test='rac_rule_spans', needs_corpus=True, function='every curated rule (lint spans and suggestions)'),
     'lhs_frontend': dict(crate='harper-literate-haskell', attach='harper-literate-haskell/src/lib.rs', file='lhs.rs', test='rac_lhs_frontend', function='LiterateHaskellParser / LiterateHaskellMasker'),
     'currency_conflict_free': dict(crate=CORE, attach=S + 'linting/currency_placement.rs', file='currency.rs', test='rac_currency_conflict_free', function='CurrencyPlacement::lint (caller of remove_overlaps)'),
+    'mask_push': dict(crate=CORE, attach=S + 'mask/mod.rs', file='mask.rs', test='rac_mask_push', function='Mask::push_allowed'),
 }
 # Verus piece name -> runtime contract checks that exercise the same clause on the real code
 RAC_FOR_FUNCTION = {
@@ -50,7 +51,20 @@ for _f in ('contains_word', 'contains_exact_word', 'get_correct_capitalization_o
 for _f in ('lex_escaped', 'lex_uchar', 'lex_xchar', 'lex_xchar_string', 'is_xchar_string', 'is_uchar_plus_string', 'lex_login', 'lex_url', 'lex_hostname_token'):
     RAC_FOR_FUNCTION[_f] = ['url_scanner', 'lexers']
 
+RAC_FOR_FUNCTION['Mask::push_allowed'] = ['mask_push']
+RAC_FOR_FUNCTION['Mask::new_blank'] = ['mask_push']
+for _f in ('CorrectNumberSuffix::lint', 'NumberSuffix::from_chars', 'NumberSuffix::to_chars'):
+    RAC_FOR_FUNCTION[_f] = ['number_suffix_rule']
+RAC_FOR_FUNCTION['parse_inline_tag'] = ['comment_frontends']
+RAC_FOR_FUNCTION['lex_ip_schemepart'] = ['url_scanner', 'lexers']
+
 UNIT_RAC = {
+    'mask': ['mask_push'],
+    'number': ['number_suffix_rule'],
+    'number_lint': ['number_suffix_rule'],
+    'jsdoc': ['comment_frontends'],
+    'overlaps32': ['remove_overlaps', 'remove_indices'],
+    'span': [],
     'document': ['document_tiles', 'condense_indices'],
     'url': ['url_scanner', 'lexers'],
     'suggestion': ['suggestion_apply'],
